@@ -207,9 +207,13 @@ def replay(w):
     full = brute(f1.astype(float), f2.astype(float), a2.astype(float), e1, e2, w['mode'])
     lay = w.get('layout', 'C')
     msgs = []
+    # the three calls of a case receive the SAME three array objects (as in a script that computes its frequencies once): an earlier call
+    # must not change what a later one sees, and the arrays are the caller's afterwards
+    F1, F2, A2 = _layout(f1, lay), _layout(f2, lay), _layout(a2, lay)
+    keep = (F1.copy(), F2.copy(), A2.copy())
     for sq, exp in ((False, full), ('sum', full.sum(axis=0)), ('mean', full.mean(axis=0))):
         try:
-            got = ES.holospectrum(_layout(f1, lay), _layout(f2, lay), _layout(a2, lay), e1, e2, mode=w['mode'], squash_time=sq)
+            got = ES.holospectrum(F1, F2, A2, e1, e2, mode=w['mode'], squash_time=sq)
         except Exception as ex:
             msgs.append('squash_time=%r raised %s: %s' % (sq, type(ex).__name__, ex))
             continue
@@ -217,9 +221,15 @@ def replay(w):
         if got.shape != exp.shape:
             msgs.append('squash_time=%r: shape %s, expected %s' % (sq, got.shape, exp.shape))
         elif not np.allclose(got, exp, rtol=tol, atol=tol):
-            msgs.append('squash_time=%r: %s differs from the triple-loop histogram %s' % (sq, np.round(got, 5).tolist(), np.round(exp, 5).tolist()))
+            if got.size > 500:
+                bad = np.argwhere(~np.isclose(got, exp, rtol=tol, atol=tol))
+                msgs.append('squash_time=%r: %d cells differ from the per-sample histogram, e.g. cell %s holds %.6g, expected %.6g' % (sq, len(bad), tuple(int(v) for v in bad[0]), got[tuple(bad[0])], exp[tuple(bad[0])]))
+            else:
+                msgs.append('squash_time=%r: %s differs from the triple-loop histogram %s' % (sq, np.round(got, 5).tolist(), np.round(exp, 5).tolist()))
+    if not all(np.array_equal(u, v, equal_nan=True) for u, v in zip((F1, F2, A2), keep)):
+        msgs.append("the caller's frequency / amplitude arrays were modified by holospectrum")
     if msgs:
-        return True, ('; '.join(msgs))[:600] + ' (infr=%s infr2=%s e1=%s e2=%s %s)' % (f1.tolist(), f2.tolist(), e1.tolist(), e2.tolist(), w['mode'])
+        return True, ('; '.join(msgs))[:600] + ' (infr=%s infr2=%s e1=%s e2=%s %s)' % (f1.tolist(), f2.tolist(), e1.tolist() if len(e1) < 20 else '%d edges %g..%g' % (len(e1), e1[0], e1[-1]), e2.tolist() if len(e2) < 20 else '%d edges %g..%g' % (len(e2), e2[0], e2[-1]), w['mode'])
     return False, 'all three squash settings equal the triple-loop histogram'
 
 
@@ -266,6 +276,20 @@ def refute(tier, seed, emit):
             emit.violation('each-sample-in-exactly-its-cell' + ('' if lay == 'C' else ':memory-layout'), w, msg[:300])
         if emit.full:
             return
+    # fine bin grids: the folded (AM bin, carrier bin) index of the sparse route exceeds 2^16 - every cell, also at the top of both axes, is its own
+    emit.scope('fine bin grids (400 x 200, 300 x 250 and 70000 x 1 carrier x AM bins: folded index beyond 2^16 / 2^17) x samples at the bottom, middle and top of both axes, out of range and on edges x {energy, amplitude}: all three squash_time settings vs the per-sample histogram')
+    for gi, (nb1, nb2) in enumerate(((400, 200), (300, 250), (70000, 1))):
+        e1 = np.linspace(1.0, 21.0, nb1 + 1)
+        e2 = np.linspace(0.5, 5.5, nb2 + 1)
+        f1 = np.array([[1.01, 20.99], [11.0, 0.5], [20.5, e1[-2]]])
+        f2 = np.array([[[0.51, 5.49], [5.49, 5.45]], [[3.0, 5.6], [5.2, 5.3]], [[5.49, e2[-2]], [5.47, 0.2]]])
+        a2 = 0.5 + 0.25 * np.arange(12).reshape(3, 2, 2)
+        for mode in ('energy', 'amplitude'):
+            emit.case(('fine-grid', gi, mode), nontrivial=True, contract='holospectrum')
+            w = {'kind': 'holo', 'infr': f1.tolist(), 'infr2': f2.tolist(), 'inam2': a2.tolist(), 'edges1': e1.tolist(), 'edges2': e2.tolist(), 'mode': mode}
+            ok, msg = replay(w)
+            if ok:
+                emit.violation('each-sample-in-exactly-its-cell:fine-bin-grid', dict(w, note='%d x %d bins' % (nb1, nb2)), msg[:300])
     # integer-valued (whole Hz) and single-precision frequencies against float64 edges that are not representable in that dtype
     emit.scope('integer-valued (int64, int32) and single-precision carrier / AM frequency arrays [T 4..20 x M 1..2 x K 1..2] x fractional float64 edges (x.5 for the integers, tenths for float32; values on and next to edges) x {energy, amplitude}; amplitudes float64 and float32')
     rr = rng(seed, 111)
